@@ -25,6 +25,10 @@ def scripts(thorough):
         'locked-then-cheat': ['ensure', 'wait_all', 'sleep', 'release_mine', 'ensure', 'start', 'wait_all', 'drain'],
         'job-then-locked': ['ensure', 'start', 'wait_all', 'sleep', 'release_mine', 'ensure', 'start', 'wait_all', 'drain'],
         'job-then-unlocked-target': ['ensure', 'start', 'wait_all', 'ensure', 'start', 'wait_all', 'drain'],
+        # the root future ends with an error while children are still running (abandoned jobs)
+        'abandon-running-jobs': ['ensure', 'start', 'ensure', 'start', 'fail'],
+        # a token is being waited for while two children run (both may exit in one wake-up)
+        'two-running-then-ensure': ['ensure', 'start', 'ensure', 'start', 'ensure', 'wait_all', 'drain'],
     }
     if thorough:
         s['three-targets'] = ['ensure', 'start', 'ensure', 'start', 'ensure', 'start', 'wait_all', 'drain']
@@ -139,15 +143,19 @@ def main(pid):
                 return None          # aborts and hangs are C09's subject (same exploration there)
             res, r2 = val
             chk.goal('top-level self check executed', top_level != 0 and res.var == 'Ok')
-            if res.var == 'Err' or (r2 is not None and r2.var == 'Err'):
-                msg = err_text(eng, (res if res.var == 'Err' else r2).f[0])
+            abandoned = script[-1] == 'fail'
+            chk.goal('a process exits while a job it started is still running', abandoned and any(c['state'] == 'running' for c in w.children))
+            if (res.var == 'Err' and not abandoned) or (r2 is not None and r2.var == 'Err'):
+                msg = err_text(eng, (res if res.var == 'Err' and not abandoned else r2).f[0])
                 if 'expected' in msg and 'tokens' in msg:
                     return {'role': 'toplevel-selfcheck-fails', 'witness': wit, 'kind': 'selfcheck', 'needle': 'expected',
                             'what': 'top-level self check fails (%s) although the environment conserved tokens' % msg}
                 return None
-            if any(c['state'] != 'reaped' for c in w.children):
+            if any(c['state'] != 'reaped' for c in w.children) and not abandoned:
                 return None
-            if top_level == 0:
+            if abandoned and any(c['state'] == 'exited' for c in w.children):
+                return None       # died but not reaped: the ledger below is stated for running (abandoned) and reaped children only
+            if top_level == 0 or abandoned:
                 end = w.P + w.others - w.X + 1
                 if end != st['q0']:
                     my_f, ch_f = f['my_tokens'], f['cheats']
@@ -280,9 +288,91 @@ def main(pid):
 
         chk.explore('backoff induction (ensure_token_or_cheat, arbitrary 1ms <= backoff <= 1s, two timeouts)', run, judge)
 
+    # ------------------------------------------------------------------------------- the cheat callback of builder::run
+    def cheat_closure():
+        """ensure_token_or_cheat calls its cheat_func once per timer expiry, any number of times.  builder::run passes a closure
+        that probes the log lock (is redo-log following this job?).  builder::run itself is a lowered coroutine that is not
+        executed, but the closure is an ordinary MIR body: call it three times in a row with every outcome of the lock probe and
+        require: no abort, the answer is 1 exactly when somebody else holds the lock, and the probe lock is not kept."""
+        from specs import dbmodel
+        from specs.depsobl import EnvWorld
+        name = [n for n in eng.bodies if n.startswith('run::{closure#0}::{closure#') and
+                eng.body(n).argtys and '{closure@src/builder.rs' in eng.body(n).argtys[0][1] and len(eng.body(n).argtys) == 1 and
+                'Result<i32' in (eng.body(n).ret or '')]
+        if len(name) != 1:
+            chk.inconclusive.append('cheat closure of builder::run not identified in the MIR (%r)' % (name,))
+            return
+        body = eng.body(name[0])
+        st = {}
+
+        class W(EnvWorld):
+            def fcntl(self, e, fd, arg, sp):
+                a = deref_all(arg)
+                kind = a.var if isinstance(a, Enum) else (a.name if isinstance(a, Struct) else repr(a))
+                fl = deref_all(a.f[0]) if isinstance(a, (Enum, Struct)) and a.f else None
+                ltype = None
+                if isinstance(fl, Struct):
+                    o = e.src.structs.get('flock')
+                    ltype = fl.f[0]
+                self.log.append(('fcntl', kind, ltype))
+                if os.environ.get('VERIF_DEBUG_FCNTL'):
+                    log('fcntl arg=%r fl=%r ltype=%r' % (a, fl, ltype))
+                if st['unlocking'](ltype):
+                    return ok(0)
+                k = e.choose(2, 'log lock is held by redo-log')
+                st['answers'].append(k)
+                return err(Enum('Errno', 'EAGAIN')) if k else ok(0)
+
+        eng.summaries.setdefault('AsRawFd::as_raw_fd', lambda e, ci, a, sp: 9)
+
+        def run():
+            w = W(eng)
+            eng.world = w
+            st['answers'] = []
+            st['unlocking'] = lambda lt: lt is not None and eng.concrete(lt, 'l_type') == 2      # F_UNLCK
+            lm = dbmodel.mk(eng, 'LockManager', file=Opaque('fs::File', 'locks'), locks=Struct('RefCell', [Map('HashSet'), 0]))
+            lock = dbmodel.mk(eng, 'Lock', manager=new_cell(lm), owned=False, fid=1000000007)
+            me = new_cell(Enum('Option', 'Some', [Struct('()', [Vec(list(b'/p/x'), 'PathBuf'), Opaque('File', None), lock])]))
+            cl = Closure(body.argtys[0][1].replace('&mut ', '').strip(), [me])
+            st['lock'] = lock
+            outs = []
+            for i in range(3):
+                r = eng.run_body(body, [new_cell(cl)])
+                outs.append((r, lock.f[eng.src.structs['Lock'].index('owned')]))
+            return outs
+
+        def judge(outcome, val, path):
+            wit = {'script_name': 'cheat-closure', 'answers': list(st['answers'])}
+            chk.goal('cheat closure: called while redo-log holds the lock', any(st['answers']))
+            chk.goal('cheat closure: called three times without redo-log', outcome == 'ok' and len(st['answers']) == 3 and not any(st['answers']))
+            if outcome == 'panic':
+                if pid != 'C09':
+                    return None
+                fn, sp = val.site()
+                return {'role': 'panic:cheat-closure', 'witness': wit, 'kind': 'cheat',
+                        'what': 'the cheat callback of builder::run aborts when it is called again (%s at %s:%s) after lock probes %r' % (
+                            val.msg, sp[0] if sp else '?', sp[1] if sp else '?', st['answers'])}
+            if outcome != 'ok':
+                return None
+            for (r, owned), k in zip(val, st['answers']):
+                if r.var != 'Ok':
+                    continue
+                n = r.f[0]
+                if pid == 'C08' and eng.check(n != k):
+                    return {'role': 'cheat-closure-answer', 'witness': wit, 'kind': 'cheat',
+                            'what': 'the cheat callback answers %r although the log lock is %s' % (n, 'held by redo-log' if k else 'free')}
+                if pid == 'C09' and owned is not False:
+                    return {'role': 'cheat-closure-keeps-lock', 'witness': wit, 'kind': 'cheat',
+                            'what': 'the cheat callback keeps the log lock it probed'}
+            return None
+
+        chk.explore('cheat callback of builder::run, three calls, every lock-probe outcome', run, judge)
+
     rep = Replayer(log)
     try:
         transitions()
+        if not os.environ.get('VERIF_ONLY') or 'cheat' in os.environ.get('VERIF_ONLY'):
+            cheat_closure()
         if not os.environ.get('VERIF_ONLY') or 'backoff' in os.environ.get('VERIF_ONLY'):
             backoff_induction()
         only = os.environ.get('VERIF_ONLY')
@@ -290,8 +380,17 @@ def main(pid):
             for cfg in CONFIGS:
                 if only and only not in '%s/%s/%d/%d' % (sname, cfg[0], cfg[2], cfg[3]):
                     continue
+                if sname == 'two-running-then-ensure' and not chk.thorough() and (cfg[0], cfg[2], cfg[3]) not in (('inherited', 1, 0), ('own-j2', 1, 0)):
+                    continue        # quick tier: the two configurations in which a second token can be obtained at all
                 run_script(sname, cfg)
-        chk.finish(make_replay(rep))
+        from lib.scenario import Scenario
+        scn = Scenario(log)
+        global cheat_replay
+        cheat_replay = cheat_replay_factory(scn)
+        try:
+            chk.finish(make_replay(rep))
+        finally:
+            scn.cleanup()
     finally:
         rep.cleanup()
 
@@ -368,6 +467,18 @@ def to_native(w):
             elif name == 'drain':
                 ops.append(['D'])
                 cur = len(ops) - 1
+            elif name == 'fail':
+                ops.append(['F'])
+                cur = None
+        elif k == 'release_mine-skipped':
+            # builder::run asks has_token() first; the client mirrored that and did not call release_mine
+            for j in range(len(ops) - 1, -1, -1):
+                if ops[j][0] == 'R':
+                    del ops[j]
+                    s_entries = [x - 1 if x > j else x for x in s_entries]
+                    if cur is not None and cur > j:
+                        cur -= 1
+                    break
         elif k == 'fork':
             child_of[d['pid']] = len(child_of)
         elif k == 'cheat_func':
@@ -424,11 +535,44 @@ def parse_native(line):
     return d
 
 
+CHEAT_SCENARIO = r"""
+set -u
+mkdir proj && cd proj
+# y and x both need `shared`; z soaks up the token that x's redo-ifchange gives back while it waits for the lock on `shared`.
+# When the lock is handed over no token is free for a while, so x's redo-ifchange (not followed by redo-log: --no-log) sits
+# through several expiries of its token-wait timer, i.e. several calls of the cheat callback.
+printf ': > shared.started\nsleep 2\necho shared-data\n' > shared.do
+printf 'redo-ifchange shared\nsleep 1.5\necho y-done\n' > y.do
+printf 'while [ ! -e shared.started ]; do sleep 0.05; done\nredo-ifchange shared\necho x-done\n' > x.do
+printf 'sleep 4\necho z-done\n' > z.do
+timeout 60 redo --no-log -j2 y x z > ../log 2>&1
+echo "rc=$?"
+echo "x=$(cat x 2>/dev/null || echo MISSING)"
+grep -c 'panicked' ../log | sed 's/^/panics=/'
+grep -m2 'panicked\|assertion' ../log | sed 's/^/LOG: /'
+"""
+
+
+def cheat_replay_factory(scn):
+    def cheat_replay(c):
+        if scn is None:
+            return False, 'no scenario runner'
+        rc, out = scn.run({}, CHEAT_SCENARIO, timeout=180)
+        c['scenario_output'] = out[-2000:]
+        lines = dict(l.split('=', 1) for l in out.split('\n') if '=' in l and not l.startswith('LOG'))
+        bad = lines.get('rc') != '0' and lines.get('panics', '0') != '0'
+        return bad, 'real binaries, `redo --no-log -j2 y x z` with a lock hand-over while no token is free: exit %s, %s panic line(s)%s' % (
+            lines.get('rc'), lines.get('panics'), ''.join(' | ' + l for l in out.split('\n') if l.startswith('LOG')))
+    return cheat_replay
+
+
 def make_replay(rep):
     def replay(c):
         if c.get('kind') == 'transition':
             return False, 'transition counterexamples are replayed through Kani only'
         w = c['witness']
+        if c.get('kind') == 'cheat':
+            return cheat_replay(c)
         if c.get('kind') == 'backoff':
             # the inductive step failed: confirm on the real code that waiting through enough timeouts aborts the process
             # (80 timeouts, about 75 s of real waiting; the 81st cheat_func answer ends the wait on a correct implementation)
@@ -458,7 +602,8 @@ def make_replay(rep):
                 nplus = line.split(' ').count('A+')
                 others = w['others0'] + d.get('taken', 0) - nplus
                 end = d.get('tokens', 0) + others - d.get('cheats', 0) + 1
-                good = d['status'] == 'OK' and end != c['q0']
+                abandoned = line.split(' ')[-1] == 'F'
+                good = (d['status'] == 'OK' or (abandoned and d['status'] == 'ERR' and 'boom' in d['result'])) and end != c['q0']
             elif c['kind'] == 'hang':
                 good = False
             else:
